@@ -365,8 +365,8 @@ func (l *layoutContext) StrutLayoutsCache() map[text.StrutLayoutKey][2]pr.Float 
 
 func (l *layoutContext) overflowsPage(bottomSpace, positionY pr.Float) bool {
 	// Use a small fudge factor to avoid floating numbers errors.
-	// The 1e-9 value comes from PEP 485.
-	return positionY > (l.pageBottom-bottomSpace)*(1+1e-9)
+	// (PEP 485's 1e-9 is below the float32 rounding step 6e-8: 1+1e-9 == 1.)
+	return positionY > (l.pageBottom-bottomSpace)*(1+1e-6)
 }
 
 func (l *layoutContext) createBlockFormattingContext() {
